@@ -531,6 +531,7 @@ func main() {
 	translateRecode(*repo, writeImp)
 	translatePrecompFull(*repo, writeImp)
 	translateMultiExpDriver(*repo, writeImp)
+	translateFrCodec(*repo, writeImp)
 	fmt.Println("extract: ok")
 }
 
